@@ -71,3 +71,127 @@ modelled! {
     #[kani::stub(customasm::asm::resolver::resolve_once, resolve_once_nd)]
     fn c02_a_iter_protocol() { iter_protocol(8) }
 }
+
+// ---------------------------------------------------------------- C02-b item steps
+use crate::steps::*;
+
+fn any_unit() -> usize {
+    let k: usize = kani::any();
+    kani::assume(k < 5);
+    [1usize, 3, 8, 16, 32][k]
+}
+
+// ---- #res
+step! { int;
+    #[kani::unwind(2)]
+    fn c02_b_res_int() {
+        let v: i64 = kani::any();
+        let unit = any_unit();
+        let prev: usize = kani::any();
+        let last: bool = kani::any();
+        pre_int(v, None);
+        let (o, stored) = res_step(0, v, unit, prev, last);
+        kani::cover!(o.resolved && stored > 0, "reservation confirmed unchanged");
+        kani::cover!(o.ok && !o.resolved && !last, "reservation changed on a guessing pass");
+        kani::cover!(o.ok && !o.resolved && last, "reservation changed on the final pass");
+        kani::cover!(!o.ok, "reservation beyond u32 rejected");
+    }
+}
+macro_rules! undecided {
+    ($kind:ident, $code:expr, $name:ident, $call:expr) => {
+        step! { $kind;
+            #[kani::unwind(2)]
+            #[kani::stub(customasm::util::BigInt::checked_sub, crate::model::st_sub)]
+            #[kani::stub(customasm::util::BigInt::checked_mul, crate::model::st_mul)]
+            fn $name() {
+                let last: bool = kani::any();
+                // the real evaluator yields Unknown only on a pass that may guess
+                if $code == 1 { kani::assume(!last); pre_unknown(); } else if $code == 2 { pre_failed(); } else { pre_err(); }
+                let o: StepOut = ($call)($code, last);
+                kani::cover!(!o.ok || !o.resolved, "undetermined value does not count as resolved");
+            }
+        }
+    };
+}
+undecided!(unknown, 1, c02_b_res_unknown, |k, last| res_step(k, 0, 8, kani::any(), last).0);
+undecided!(failed, 2, c02_b_res_failed, |k, last| res_step(k, 0, 8, kani::any(), last).0);
+undecided!(err, 3, c02_b_res_err, |k, last| res_step(k, 0, 8, kani::any(), last).0);
+
+// ---- #align
+step! { int;
+    #[kani::unwind(2)]
+    fn c02_b_align_int() {
+        let v: i64 = kani::any();
+        let prev: usize = kani::any();
+        let last: bool = kani::any();
+        pre_int(v, None);
+        let (o, stored) = align_step(0, v, prev, last);
+        kani::cover!(o.resolved && stored > 1 && last, "alignment confirmed on the final pass");
+        kani::cover!(!o.ok && v == 0, "alignment 0 rejected");
+        kani::cover!(o.ok && !o.resolved, "alignment changed");
+    }
+}
+undecided!(unknown, 1, c02_b_align_unknown, |k, last| align_step(k, 0, kani::any(), last).0);
+undecided!(failed, 2, c02_b_align_failed, |k, last| align_step(k, 0, kani::any(), last).0);
+undecided!(err, 3, c02_b_align_err, |k, last| align_step(k, 0, kani::any(), last).0);
+
+// ---- #addr
+step! { int;
+    #[kani::unwind(2)]
+    #[kani::stub(customasm::util::BigInt::checked_sub, crate::model::st_sub)]
+    #[kani::stub(customasm::util::BigInt::checked_mul, crate::model::st_mul)]
+    fn c02_b_addr_int() {
+        let v: i32 = kani::any();
+        let start: i16 = kani::any();
+        let unit = any_unit();
+        let size: Option<usize> = if kani::any() { let s: usize = kani::any(); kani::assume(s < (1usize << 40)); Some(s) } else { None };
+        let prev: i32 = kani::any();
+        let last: bool = kani::any();
+        pre_int(v as i64, None);
+        let (o, _) = addr_step(0, v as i64, start as i64, unit, size, prev as i64, last);
+        kani::cover!(o.resolved && last && size.is_some(), "address inside a sized bank confirmed");
+        kani::cover!(!o.ok && (v as i64) < start as i64, "address below the bank rejected");
+        kani::cover!(!o.ok && (v as i64) > start as i64, "address beyond the bank size rejected");
+        kani::cover!(o.ok && !o.resolved, "address changed");
+    }
+}
+undecided!(unknown, 1, c02_b_addr_unknown, |k, last| addr_step(k, 0, 0, 8, None, kani::any::<i32>() as i64, last).0);
+undecided!(failed, 2, c02_b_addr_failed, |k, last| addr_step(k, 0, 0, 8, None, kani::any::<i32>() as i64, last).0);
+undecided!(err, 3, c02_b_addr_err, |k, last| addr_step(k, 0, 0, 8, None, kani::any::<i32>() as i64, last).0);
+
+// ---- data element
+step! { int;
+    #[kani::unwind(2)]
+    fn c02_b_data_int() {
+        // any pass kind, both optimisation settings
+        let n: usize = kani::any(); kani::assume(n >= 1 && n <= 8);
+        let v: i16 = kani::any();
+        let first: bool = kani::any();
+        let last: bool = kani::any();
+        let sk: bool = kani::any();
+        let opt: bool = kani::any();
+        let prev: i16 = kani::any(); kani::assume(prev >= 0 && (prev as i64) < (1i64 << n));
+        pre_int(v as i64, None);
+        let (res, flag, _) = data_element_step(n, v as i64, None, 0, first, last, sk, opt, prev as i64);
+        kani::cover!(res && !flag && !last, "unchanged on a guessing pass");
+        kani::cover!(flag, "resolved flag set from a statically known first pass");
+        kani::cover!(!res && last, "changed on the final pass");
+    }
+}
+macro_rules! undecided_data {
+    ($kind:ident, $code:expr, $name:ident) => {
+        step! { $kind;
+            #[kani::unwind(2)]
+            fn $name() {
+                let (first, last, sk, opt): (bool, bool, bool, bool) = (kani::any(), kani::any(), kani::any(), kani::any());
+                if $code == 1 { kani::assume(!last); pre_unknown(); } else if $code == 2 { pre_failed(); } else { pre_err(); }
+                let (res, flag, _) = data_element_step(8, 0, None, $code, first, last, sk, opt, 5);
+                assert!(!flag, "undetermined value marked as resolved for good");
+                kani::cover!(!res, "undetermined value does not count as resolved");
+            }
+        }
+    };
+}
+undecided_data!(unknown, 1, c02_b_data_unknown);
+undecided_data!(failed, 2, c02_b_data_failed);
+undecided_data!(err, 3, c02_b_data_err);
